@@ -20,6 +20,7 @@ import (
 	"k8s.io/apimachinery/pkg/api/resource"
 	metav1 "k8s.io/apimachinery/pkg/apis/meta/v1"
 	"k8s.io/apimachinery/pkg/types"
+	"k8s.io/apimachinery/pkg/labels"
 	fwktype "k8s.io/kube-scheduler/framework"
 	"k8s.io/kubernetes/pkg/scheduler/framework"
 
@@ -335,6 +336,24 @@ func (r *vtC05Reader) pev() *corev1.Pod {
 
 // ---------------------------------------------------------------- history stream
 
+// vtC05Lister is the ReservationLister the plugin entry points Reserve / Unreserve read the
+// Reservation object from; it holds at most the object of the current operation.
+type vtC05Lister struct{ r *schedulingv1alpha1.Reservation }
+
+func (l *vtC05Lister) List(selector labels.Selector) ([]*schedulingv1alpha1.Reservation, error) {
+	if l.r == nil {
+		return nil, nil
+	}
+	return []*schedulingv1alpha1.Reservation{l.r}, nil
+}
+
+func (l *vtC05Lister) Get(name string) (*schedulingv1alpha1.Reservation, error) {
+	if l.r == nil || l.r.Name != name {
+		return nil, fmt.Errorf("reservation %q not found", name)
+	}
+	return l.r, nil
+}
+
 var vtC05Plugin *Plugin // only used for FilterNominateReservation (the allocate-once gate)
 
 func vtC05SortedUIDs(m map[types.UID]struct{}) []int64 {
@@ -446,6 +465,8 @@ func vtC05HistoryExec(in []int64) []int64 {
 	nm := newNominator(nil, nil)
 	rh := &reservationEventHandler{cache: c, rrNominator: nm}
 	ph := &podEventHandler{cache: c, nominator: nm}
+	lister := &vtC05Lister{}
+	pl := &Plugin{handle: vtC05Plugin.handle, rLister: lister, reservationCache: c, nominator: nm}
 	nops := int(rd.next())
 	var obs []int64
 	for i := 0; i < nops; i++ {
@@ -487,6 +508,26 @@ func vtC05HistoryExec(in []int64) []int64 {
 			ph.OnUpdate(o, p)
 		case 10:
 			ph.OnDelete(rd.pev())
+		case 11: // Plugin.Reserve of the reserve pod of a Reservation the lister has, on the node of the call
+			r := vtC05Reservation(rd.spec())
+			node := rd.next()
+			lister.r = r
+			cs := framework.NewCycleState()
+			cs.Write(stateKey, &stateData{})
+			if st := pl.Reserve(context.TODO(), cs, reservationutil.NewReservePod(r), vtC05Str("n", node)); !st.IsSuccess() {
+				code = 3
+			}
+			lister.r = nil
+		case 12: // Plugin.Unreserve of that reserve pod; found = 0: the lister no longer has the Reservation
+			r := vtC05Reservation(rd.spec())
+			node, found := rd.next(), rd.next()
+			if found != 0 {
+				lister.r = r
+			}
+			cs := framework.NewCycleState()
+			cs.Write(stateKey, &stateData{})
+			pl.Unreserve(context.TODO(), cs, reservationutil.NewReservePod(r), vtC05Str("n", node))
+			lister.r = nil
 		default:
 			rd.pos = len(rd.in)
 		}
@@ -506,6 +547,7 @@ type vtC05GenState struct {
 	podRsv  map[int64]int64               // pod uid -> reservation it was last attached to
 	podNode map[int64]int64
 	opPod   map[int64]bool // pod uid -> is a reservation-operating-mode pod
+	reserved map[int64]bool // reservation uid -> Reserve'd by the plugin and not rolled back
 }
 
 func vtC05GenRes(r *rand.Rand, style string, allowPods bool, density int) []int64 {
@@ -669,9 +711,9 @@ func (g *vtC05GenState) pev(pu int64, forceRsv int64) []int64 {
 }
 
 func vtC05HistoryGen(r *rand.Rand, i int) (string, []int64) {
-	style := []string{"small", "small", "small", "large", "grow", "unstable", "once", "operating", "operating"}[r.Intn(9)]
+	style := []string{"small", "small", "small", "large", "grow", "unstable", "once", "operating", "operating", "reserve", "reserve"}[r.Intn(11)]
 	g := &vtC05GenState{r: r, style: style, nodeOf: map[int64]int64{}, lastRsv: map[int64]vtC05Spec{},
-		podReq: map[int64][]int64{}, podRsv: map[int64]int64{}, podNode: map[int64]int64{}, opPod: map[int64]bool{}}
+		podReq: map[int64][]int64{}, podRsv: map[int64]int64{}, podNode: map[int64]int64{}, opPod: map[int64]bool{}, reserved: map[int64]bool{}}
 	nops := 2 + r.Intn(12)
 	in := []int64{int64(nops)}
 	nr := int64(1 + r.Intn(4))
@@ -679,7 +721,10 @@ func vtC05HistoryGen(r *rand.Rand, i int) (string, []int64) {
 		ru := 1 + r.Int63n(nr)
 		pu := 1 + r.Int63n(5)
 		k := r.Intn(20)
-		if j < 2 && r.Intn(3) != 0 {
+		if style == "reserve" && r.Intn(2) == 0 {
+			k = 20
+		}
+		if j < 2 && r.Intn(3) != 0 && k < 20 {
 			k = r.Intn(2) // start with reservations most of the time
 		}
 		if style == "operating" {
@@ -728,9 +773,33 @@ func vtC05HistoryGen(r *rand.Rand, i int) (string, []int64) {
 			in = append(in, 9)
 			in = append(in, g.pev(pu, -1)...)
 			in = append(in, g.pev(pu, -1)...)
-		default:
+		case k < 20 && !(style == "reserve" || r.Intn(6) == 0):
 			in = append(in, 10)
 			in = append(in, g.pev(pu, -1)...)
+		default:
+			// scheduling of the Reservation itself: Reserve on a node, possibly rolled back and retried elsewhere.
+			// The lister's object is usually still pending (no status.nodeName).
+			node, known := g.nodeOf[ru]
+			if !known || node == 0 {
+				node = int64(1 + r.Intn(2))
+			}
+			sp := g.spec(ru, !known)
+			if r.Intn(4) != 0 {
+				sp[1], sp[2] = 0, 0 // pending, not bound yet
+			}
+			if g.reserved[ru] && r.Intn(4) != 0 {
+				in = append(in, 12)
+				in = append(in, sp...)
+				in = append(in, node, vtB(r.Intn(5) != 0))
+				delete(g.nodeOf, ru)
+				g.reserved[ru] = false
+			} else {
+				in = append(in, 11)
+				in = append(in, sp...)
+				in = append(in, node)
+				g.nodeOf[ru] = node
+				g.reserved[ru] = true
+			}
 		}
 	}
 	return style, in
